@@ -126,16 +126,32 @@ def strip_lean_comments(src):
     return "".join(out)
 
 
-def forbidden_tokens():
+def import_closure(targets):
+    """files of this project transitively imported by the given module targets"""
+    seen, todo = set(), list(targets)
+    while todo:
+        m = todo.pop()
+        if m in seen or not m.startswith("SyneTune"):
+            continue
+        p = os.path.join(LEAN, m.replace(".", "/") + ".lean")
+        if not os.path.exists(p):
+            continue
+        seen.add(m)
+        for l in open(p):
+            mm = re.match(r"\s*import\s+(SyneTune[\w.]*)", l)
+            if mm:
+                todo.append(mm.group(1))
+    return sorted(seen)
+
+
+def forbidden_tokens(targets):
     hits = []
-    for d, _, fs in os.walk(os.path.join(LEAN, "SyneTune")):
-        for f in fs:
-            if f.endswith(".lean"):
-                p = os.path.join(d, f)
-                src = strip_lean_comments(open(p).read())
-                for m in FORBIDDEN.finditer(src):
-                    line = src.count("\n", 0, m.start()) + 1
-                    hits.append(f"{os.path.relpath(p, LEAN)}:{line}:{m.group(0).strip()}")
+    for m in import_closure(targets):
+        p = os.path.join(LEAN, m.replace(".", "/") + ".lean")
+        src = strip_lean_comments(open(p).read())
+        for mt in FORBIDDEN.finditer(src):
+            line = src.count("\n", 0, mt.start()) + 1
+            hits.append(f"{os.path.relpath(p, LEAN)}:{line}:{mt.group(0).strip()}")
     return hits
 
 
@@ -378,7 +394,7 @@ def _run(ctx, args, t0):
     drv = getattr(mod, "DRIVER", None)
     aud, build_out = audit(pid, targets, theorems)
     ctx.undischarged = [(t, a["why"]) for t, a in aud.items() if not a["ok"]]
-    forb = forbidden_tokens()
+    forb = forbidden_tokens(targets + ([drv[:-5].replace("/", ".")] if drv else []))
     if forb:
         ctx.undischarged.append(("forbidden-tokens", "; ".join(forb[:10])))
     if drv:
